@@ -83,6 +83,12 @@ func progressMode(r *common.Run, sk *sink) {
 		runStreamThenSnapshot(r, sk, c, r.Rand("sts", c), r.SubSeed("sts-seed", c))
 		r.Flush()
 	}
+	// directed prefix (replay.go): the transfer of a snapshot image to a lagging follower is disturbed by
+	// an in-process restart of the receiving replica or by a cut of its link; the follower must catch up
+	for _, c := range r.MyCases(r.Pick(4, 32)) {
+		runRestartDuringSend(r, sk, c, 1+c%2, r.Rand("rds", c), r.SubSeed("rds-seed", c))
+		r.Flush()
+	}
 	// directed prefix: two followers of an on-disk shard need a streamed snapshot at the same time
 	for _, c := range r.MyCases(r.Pick(4, 40)) {
 		runTwoLaggingStreams(r, sk, c, r.Rand("tls", c), r.SubSeed("tls-seed", c))
